@@ -85,6 +85,10 @@ fn pair_generic<T: PartialOrd + Clone + Debug>(ca: &[T], cb: &[T], c: &PairCase,
     ensure!(got == want, format!("C07/includes/{kp}"), "{ia:?}.includes({ib:?}) = {got}, sets say {want}");
     let got = ib.is_included_in(&ia);
     ensure!(got == want, format!("C07/is_included_in/{kp}"), "{ib:?}.is_included_in({ia:?}) = {got}, sets say {want}");
+    if c.a == c.b {
+        // an interval against itself, passed as the very same object (nothing may depend on the address)
+        ensure!(ia.intersects(&ia) && ia.includes(&ia) && ia.is_included_in(&ia), format!("C07/same_object/{kp}"), "{ia:?} against itself (same object): intersects {} includes {} is_included_in {}", ia.intersects(&ia), ia.includes(&ia), ia.is_included_in(&ia));
+    }
     Ok(())
 }
 
